@@ -21,6 +21,7 @@ import (
 //	switch-to-if   : a tagless switch without fallthrough/break                       ->  an if / else-if chain
 //	ret-local      : `return f(x), nil`                                               ->  `r0_ := f(x); return r0_, nil`
 //	return-swap    : a function body ending `if c { S; return X }; return Y`            ->  `if !(c) { return Y }; S; return X`
+//	if-to-switch   : `if a { A } else if b { B } else { C }`                              ->  `switch { case a: A; case b: B; default: C }`
 //	cond-local     : `if c { ... }` (not an else-if)                                    ->  `c1_ := c; if c1_ { ... }`
 //	arg-local      : `x := f(a, g(b))` / `f(a, g(b))`                                 ->  `a1_ := g(b); x := f(a, a1_)`
 var astSweeps = map[string]func(f *ast.File) int{
@@ -32,6 +33,7 @@ var astSweeps = map[string]func(f *ast.File) int{
 	"arg-local":    sweepArgLocal,
 	"cond-local":   sweepCondLocal,
 	"return-swap":  sweepReturnSwap,
+	"if-to-switch": sweepIfToSwitch,
 }
 
 func cmdSweepAST(kind string) int {
@@ -442,5 +444,53 @@ func sweepReturnSwap(f *ast.File) int {
 		fd.Body.List = append(append(l[:len(l)-2:len(l)-2], guard), ifs.Body.List...)
 		n++
 	}
+	return n
+}
+
+// sweepIfToSwitch turns every if / else-if chain with an else branch into a tagless switch (chains containing an
+// unlabelled break, which would then leave the switch instead of the loop, are left alone).
+func sweepIfToSwitch(f *ast.File) int {
+	n := 0
+	eachStmtList(f, func(owner ast.Node, list *[]ast.Stmt) {
+		for i, s := range *list {
+			ifs, ok := s.(*ast.IfStmt)
+			if !ok {
+				continue
+			}
+			var clauses []ast.Stmt
+			usable := true
+			cur := ifs
+			for cur != nil {
+				if cur.Init != nil {
+					usable = false
+					break
+				}
+				clauses = append(clauses, &ast.CaseClause{List: []ast.Expr{cur.Cond}, Body: cur.Body.List})
+				switch e := cur.Else.(type) {
+				case *ast.IfStmt:
+					cur = e
+				case *ast.BlockStmt:
+					clauses = append(clauses, &ast.CaseClause{Body: e.List})
+					cur = nil
+				default:
+					cur = nil
+				}
+			}
+			if !usable || len(clauses) < 2 {
+				continue
+			}
+			ast.Inspect(ifs, func(m ast.Node) bool {
+				if b, ok := m.(*ast.BranchStmt); ok && b.Tok == token.BREAK && b.Label == nil {
+					usable = false
+				}
+				return usable
+			})
+			if !usable {
+				continue
+			}
+			(*list)[i] = &ast.SwitchStmt{Body: &ast.BlockStmt{List: clauses}}
+			n++
+		}
+	})
 	return n
 }
